@@ -150,6 +150,20 @@ def rescan_corpus():
     return files, tests, chain
 
 
+def rescan_installed():
+    """(fixed) five installed distributions whose pytest11 plugins all define the SAME fixture name, next to a test that
+    requests it: which one answers is the recorded finding (the first registered), but it is the same one every time
+    the unchanged tree is scanned - the site-packages directory is read in the same order each time"""
+    sp = ".venv/lib/python3.12/site-packages"
+    files = {"tests/test_0.py": "def test_0(shared_fx, own_a, own_e):\n    pass\n"}
+    chain = ["shared_fx"]
+    for d in "abcde":
+        files[sp + "/plug_%s/__init__.py" % d] = ""
+        files[sp + "/plug_%s/plugin.py" % d] = FXT.format("shared_fx") + "\n@pytest.fixture\ndef own_%s(shared_fx):\n    return 2\n" % d
+        files[sp + "/plug_%s-1.0.dist-info/entry_points.txt" % d] = "[pytest11]\nplug_%s = plug_%s.plugin\n" % (d, d)
+    return files, ["tests/test_0.py"], chain
+
+
 def rescan_part(r, tier):
     """`scanning the same workspace again … in a new process`: the real scan_workspace on the same files, several
     times over (each on a fresh index; the scan's hash sets iterate differently every time): every answer must be
@@ -157,10 +171,10 @@ def rescan_part(r, tier):
     v = r.verdict
     cases = core.Cases()
     groups = []
-    nws = 5 if tier == "quick" else 40
+    nws = 6 if tier == "quick" else 40
     reps = 8 if tier == "quick" else 12
     for i in range(nws):
-        files, tests, chain = rescan_corpus() if i == 0 else gen_rescan_workspace(r.rng)
+        files, tests, chain = rescan_corpus() if i == 0 else rescan_installed() if i == 1 else gen_rescan_workspace(r.rng)
         names = []
         for j in range(reps):
             name = "rs%dx%d" % (i, j)
@@ -179,7 +193,7 @@ def rescan_part(r, tier):
             for t in tests:
                 cases.q("avail", t)
                 for m in chain:
-                    cases.q("resolve", t, "fx_" + m)
+                    cases.q("resolve", t, m if m == "shared_fx" else "fx_" + m)
             cases.q("unused")
             names.append(name)
         groups.append((names, files))
